@@ -20,6 +20,7 @@ import (
 	evmtypes "github.com/palomachain/paloma/v2/x/evm/types"
 	skykeeper "github.com/palomachain/paloma/v2/x/skyway/keeper"
 	skytypes "github.com/palomachain/paloma/v2/x/skyway/types"
+	valsettypes "github.com/palomachain/paloma/v2/x/valset/types"
 )
 
 // Bridge life-cycle correspondence (model: lean/PalomaModel/Model/Bridge.lean).
@@ -49,6 +50,64 @@ type brHarness struct {
 	ckptSeen     map[string]bool
 	deposits     map[uint64][2]int64 // skyway nonce -> (token, amount) for deposit claims with a registered token
 	seenObserved uint64
+	// remote keys (C13): key id -> private key; ids 1..5 are the fixture's keys of validators 1..5, higher ids are
+	// created by regkeyOp.  keyHolder is the harness's own record of the accepted registrations.
+	keys      map[int]*ecdsa.PrivateKey
+	keyHolder map[int]int // key id -> validator (1-based) currently registered with it; absent = nobody
+	valKey    map[int]int // validator -> its current key id
+	nextKey   int
+}
+
+func (b *brHarness) initKeys() {
+	b.keys, b.keyHolder, b.valKey = map[int]*ecdsa.PrivateKey{}, map[int]int{}, map[int]int{}
+	for i := range skykeeper.ValAddrs {
+		b.keys[i+1] = skykeeper.EthPrivKeys[i]
+		b.keyHolder[i+1] = i + 1
+		b.valKey[i+1] = i + 1
+	}
+	b.nextKey = len(skykeeper.ValAddrs) + 1
+}
+
+// ethAddrOf: the remote address validator v (1-based) is currently registered with.
+func (b *brHarness) ethAddrOf(v int) string {
+	return crypto.PubkeyToAddress(b.keys[b.valKey[v]].PublicKey).Hex()
+}
+
+// regkeyOp: a validator (re-)registers its remote key for the bridge's chain through the valset keeper —
+// a fresh key, a key another validator holds (refused), a key nobody holds any more, or its own key again.
+func (b *brHarness) regkeyOp() {
+	r, e := b.r, b.e
+	v := 1 + r.Rng.Intn(len(skykeeper.ValAddrs))
+	var kid int
+	switch x := r.Rng.Intn(10); {
+	case x < 5: // fresh key
+		kid = b.nextKey
+		b.nextKey++
+		k, err := crypto.ToECDSA(crypto.Keccak256([]byte(fmt.Sprint("verif-remote-key-", kid))))
+		if err != nil {
+			r.t.Fatal(err)
+		}
+		b.keys[kid] = k
+	case x < 8: // any known key: held by somebody else, by nobody, or by v itself
+		kid = 1 + r.Rng.Intn(b.nextKey-1)
+	default:
+		kid = b.valKey[v]
+	}
+	addr := crypto.PubkeyToAddress(b.keys[kid].PublicKey)
+	b.e.fault.Reset("", 0)
+	res := e.runMsg(func(ctx sdk.Context) error {
+		return e.in.ValsetKeeper.AddExternalChainInfo(ctx, skykeeper.ValAddrs[v-1], []*valsettypes.ExternalChainInfo{{
+			ChainType: "evm", ChainReferenceID: skyChain, Address: addr.Hex(), Pubkey: addr.Bytes()}})
+	})
+	if res == "ok" {
+		if old, ok := b.valKey[v]; ok && b.keyHolder[old] == v {
+			delete(b.keyHolder, old)
+		}
+		b.keyHolder[kid] = v
+		b.valKey[v] = kid
+	}
+	r.Stat("regkey." + res)
+	b.emit(fmt.Sprintf("regkey %d %d", v, kid), res)
 }
 
 type brCkpt struct {
@@ -312,6 +371,7 @@ func runBridgeCase(t *testing.T, r *Rec, prop string, nops int) {
 	e := newSkyEnv(t, 3)
 	b := &brHarness{r: r, e: e, nTok: 2, accepted: map[int]obsTx{}, refunded: map[int]bool{}, burned: map[int]bool{},
 		taxRate: map[int][2]int64{}, taxEx: map[int]int{}, ckptSeen: map[string]bool{}, deposits: map[uint64][2]int64{}, pendEst: map[[2]int]uint64{}, fundedSupply: map[int]*big.Int{}, minted: map[int]*big.Int{}, burnt: map[int]*big.Int{}}
+	b.initKeys()
 	e.addToken("utok1", "0x1000000000000000000000000000000000000001")
 	e.addToken("utok2", "0x1000000000000000000000000000000000000002")
 	for tk := 1; tk <= b.nTok; tk++ {
@@ -341,6 +401,10 @@ func runBridgeCase(t *testing.T, r *Rec, prop string, nops int) {
 	for i := 0; i < nops; i++ {
 		x := r.Rng.Intn(100)
 		b.recordCheckpoints()
+		if weightEv > 0 && r.Rng.Intn(100) < 5 {
+			b.regkeyOp()
+			continue
+		}
 		if weightEv > 0 && r.Rng.Intn(100) < weightEv && len(b.ckpts) > 0 {
 			b.evidenceOp()
 			continue
@@ -582,7 +646,7 @@ func runBridgeCase(t *testing.T, r *Rec, prop string, nops int) {
 			for i := range skykeeper.ValAddrs {
 				o := e.orch(i)
 				if e.runMsg(func(ctx sdk.Context) error {
-					_, err := e.ms.EstimateBatchGas(ctx, &skytypes.MsgEstimateBatchGas{Metadata: e.meta(o), Nonce: uint64(bb.nonce), TokenContract: e.erc20[bb.tok-1], EthSigner: skykeeper.EthAddrs[i].Hex(), Estimate: est})
+					_, err := e.ms.EstimateBatchGas(ctx, &skytypes.MsgEstimateBatchGas{Metadata: e.meta(o), Nonce: uint64(bb.nonce), TokenContract: e.erc20[bb.tok-1], EthSigner: b.ethAddrOf(i + 1), Estimate: est})
 					return err
 				}) == "ok" {
 					okc++
@@ -792,12 +856,14 @@ func (b *brHarness) evidenceOp() {
 		ext.GasEstimate += 7777
 		variant = 2000
 	}
-	signer := r.Rng.Intn(len(skykeeper.ValAddrs))
-	var key *ecdsa.PrivateKey = skykeeper.EthPrivKeys[signer]
-	signerS := fmt.Sprint(signer + 1)
+	// the signing key: any key ever registered (by its current holder, by a validator that has rotated it away
+	// since, …) or a key no validator ever registered
+	kid := 1 + r.Rng.Intn(b.nextKey-1)
+	key := b.keys[kid]
+	signerS := fmt.Sprint(kid)
 	if r.Rng.Intn(6) == 0 {
 		key, _ = crypto.ToECDSA(crypto.Keccak256([]byte(fmt.Sprint("stranger", r.Rng.Int()))))
-		signerS = "0"
+		signerS, kid = "0", 0
 	}
 	ci, err := e.in.EvmKeeper.GetChainInfo(e.ctx, skyChain)
 	if err != nil {
@@ -826,6 +892,25 @@ func (b *brHarness) evidenceOp() {
 	jailedAfter := b.jailedList()
 	if variant == 0 && jailedAfter != jailedBefore {
 		r.Hit("genuine_confirmation_safe", fmt.Sprintf("a signature over the issued checkpoint of batch %d/%d (estimate %d) jailed validator(s) %s", ck.tok, ck.nonce, ck.est, jailedAfter), b.replay())
+	}
+	// "only if the signature is by that validator's registered key": whoever is newly jailed must be the validator
+	// the harness's own record of accepted registrations names as the current holder of the signing key
+	if jailedAfter != jailedBefore {
+		before := map[string]bool{}
+		for _, x := range strings.Split(jailedBefore, ",") {
+			before[x] = true
+		}
+		for _, x := range strings.Split(jailedAfter, ",") {
+			if x == "-" || before[x] {
+				continue
+			}
+			if holder, ok := b.keyHolder[kid]; !ok || fmt.Sprint(holder) != x {
+				r.Hit("jail_only_registered_key", fmt.Sprintf("validator %s was jailed on a signature by key %d, which is registered by %v (0 = nobody)", x, kid, b.keyHolder[kid]), b.replay())
+			}
+		}
+	}
+	if _, held := b.keyHolder[kid]; !held {
+		r.Stat("evidence.unheld_key." + res)
 	}
 	if variant == 0 {
 		r.Stat("evidence.genuine." + res)
